@@ -206,7 +206,7 @@ namespace verif
         bool with_stalls = c.coin(150);
         unsigned n       = unsigned(c.range(6, 14));
         std::vector<Script> scripts(n);
-        std::string cfg = "maxRequestSize=" + std::to_string(L) + " headerTimeout=" + std::to_string(th).substr(0, 3) + " bodyTimeout=" + std::to_string(tb).substr(0, 3) + " workers=" + std::to_string(workers);
+        std::string cfg = std::string((L / 7) % 2 ? "maxPayload=" : "maxRequestSize=") + std::to_string(L) + " headerTimeout=" + std::to_string(th).substr(0, 3) + " bodyTimeout=" + std::to_string(tb).substr(0, 3) + " workers=" + std::to_string(workers);
         bool nt         = false;
         std::string desc_all;
         for (unsigned i = 0; i < n; ++i)
@@ -327,7 +327,15 @@ namespace verif
         auto sh = std::make_shared<Shared>();
         net::Server srv;
         srv.start(std::make_shared<Handler>(sh), workers, [&](Http::Endpoint::Options& o) {
-            o.maxRequestSize(L);
+            // the limit can be set through two public options: maxRequestSize, or its deprecated alias
+            // maxPayload; every other case (by the limit's value, no choice consumed) uses the alias
+#pragma GCC diagnostic push
+#pragma GCC diagnostic ignored "-Wdeprecated-declarations"
+            if ((L / 7) % 2)
+                o.maxPayload(L);
+            else
+                o.maxRequestSize(L);
+#pragma GCC diagnostic pop
             o.headerTimeout(std::chrono::milliseconds(int(th * 1000)));
             o.bodyTimeout(std::chrono::milliseconds(int(tb * 1000)));
         });
